@@ -63,11 +63,25 @@ type child struct {
 	out    *bufio.Reader
 	stderr *bytes.Buffer
 	lines  chan string
+	dir    string // the child's working directory (empty: FindModule falls back to ./name.yang), removed by the parent
 }
 
 func startChild() (*child, error) {
-	cmd := exec.Command(os.Args[0], os.Args[1:]...)
+	self, eerr := os.Executable() // absolute: the child gets a working directory of its own
+	if eerr != nil {
+		self = os.Args[0]
+	}
+	cmd := exec.Command(self, os.Args[1:]...)
 	cmd.Env = append(os.Environ(), "VERIF_CHILD=1", "GOMEMLIMIT=3GiB", "GOTRACEBACK=single")
+	// The child runs in an empty directory of its own.  The parent makes and removes it: a child is
+	// killed, not asked to leave, so its own deferred clean-up would never run.
+	dir, derr := os.MkdirTemp("", "verif-child-")
+	if derr == nil {
+		cmd.Dir = dir
+		cmd.Env = append(cmd.Env, "VERIF_CHILD_DIR="+dir)
+	} else {
+		dir = ""
+	}
 	ip, err := cmd.StdinPipe()
 	if err != nil {
 		return nil, err
@@ -76,9 +90,10 @@ func startChild() (*child, error) {
 	if err != nil {
 		return nil, err
 	}
-	c := &child{cmd: cmd, in: bufio.NewWriter(ip), out: bufio.NewReaderSize(op, 1<<20), stderr: &bytes.Buffer{}, lines: make(chan string, 1)}
+	c := &child{cmd: cmd, in: bufio.NewWriter(ip), out: bufio.NewReaderSize(op, 1<<20), stderr: &bytes.Buffer{}, lines: make(chan string, 1), dir: dir}
 	cmd.Stderr = &tailWriter{buf: c.stderr}
 	if err := cmd.Start(); err != nil {
+		c.rmdir()
 		return nil, err
 	}
 	go func() {
@@ -115,9 +130,16 @@ func (t *tailWriter) Write(p []byte) (int, error) {
 	return len(p), nil
 }
 
+func (c *child) rmdir() {
+	if c.dir != "" {
+		os.RemoveAll(c.dir)
+	}
+}
+
 func (c *child) kill() {
 	c.cmd.Process.Kill()
 	c.cmd.Wait()
+	c.rmdir()
 }
 
 // RunIsolated runs every input through worker children (procs in parallel) and returns one
@@ -154,6 +176,7 @@ func RunIsolated(inputs [][]byte, procs int, bound time.Duration) []ChildResult 
 				case line, ok := <-c.lines:
 					if !ok {
 						c.cmd.Wait()
+						c.rmdir()
 						res[i] = ChildResult{Crashed: true, Msg: "child died: " + c.stderr.String()}
 						c = nil
 						continue
